@@ -33,7 +33,13 @@ for d in sorted(glob.glob('/verif/seeded/*/')):
         out.append('| %s | %s | %s (%s) | %s | %s |' % (sid, meta['breaks_property'], chk, tier, verdict, ', '.join(r['cells'])))
         if r['exit'] == 1:
             det.append({'check': chk, 'tier': tier, 'violations': r['violations'], 'cells': r['cells']})
+    if not res:      # evaluated in an earlier session: keep what meta.json recorded
+        for r in (meta.get('detected_by') or []):
+            out.append('| %s | %s | %s (%s) | caught (%d violations) | %s |' % (sid, meta['breaks_property'], r['check'], r['tier'], r['violations'], ', '.join(r['cells'])))
+        for r in (meta.get('missed_by') or []):
+            out.append('| %s | %s | %s (%s) | MISSED | |' % (sid, meta['breaks_property'], r['check'], r['tier']))
     if res:
+        meta['missed_by'] = [{'check': c, 'tier': t} for (c, t), r in sorted(res.items()) if r['exit'] == 0]
         meta['detected_by'] = det
         meta['what_i_ran'] = ['tools/seed_reconfirm.sh ' + sid] + ['tools/seed_eval.sh %s %s %s' % (sid, c, t) for (c, t) in sorted(res)]
         json.dump(meta, open(mp, 'w'), indent=1)
